@@ -943,6 +943,9 @@ def coerce(w, kind):
       if w.kind.name == kind.name:
         return w
       raise OutOfSubset(f'optional kind mismatch {w.kind.name} vs {kind.name}')
+    if isinstance(w, VObj) and kind.inner is not KVal:
+      val_axioms()
+      return VOpt(kind, w.e == VAL_NONE, coerce(w, kind.inner))
     return VOpt(kind, z3.BoolVal(False), coerce(w, kind.inner))
   if kind is KVal:
     return VObj(to_val(w))
